@@ -182,7 +182,7 @@ def get_compact_representation(
                 _row.append(round(_par_err, _sig_fig_err))
             if asymmetric_parameter_errors is not None:
                 for _err in asymmetric_parameter_errors[_i]:  # iterate over up and down error
-                    if np.isnan(_err):  # parameter is fixed, no error available
+                    if np.isnan(_err) or _err == 0.0:  # parameter is fixed, no error available
                         _row.append("N/A")
                     else:
                         _sig_err = max(2, -int(np.log10(np.abs(_err))) + 1)
